@@ -288,6 +288,11 @@ def run(ctx):
     meta.append({'kind': 'split-empty'})
     batches.append((F, lines, impl, meta))
 
+    ctx.note('observations (triaged, no finding): (a) np_random_split lays the randbelow stream out as C.reshape(t,n) '
+             '(coefficient of X^(j+1) of secret h = stream[j*n+h]) whereas random_split uses stream[h*t+k] for X^(t-k): on '
+             'identical randomness the share matrices differ for t >= 2 or n >= 2 but recombine to the same secrets; each '
+             'variant is checked against the oracle with its own layout; (b) np_recombine(field, points, x_rs=[]) raises '
+             'ValueError where recombine returns [] (degenerate call, not generated for the np variant)')
     # -- run the model ------------------------------------------------------------------------
     req, exp, info = [], [], []
     for F, lines, impl, meta in batches:
